@@ -50,6 +50,7 @@ def roundtrip(rm, desc):
     return {'key': key, 'what': f'reload raises {type(e).__name__}: {e}',
             'input': desc, 'recipe': r1}
   r2 = norm(new.get_quantization_recipe())
+  found = None
   if r2 != r1:
     # is the only difference the dropped config of no_quantize rules?
     same_shape = len(r1) == len(r2) and all(
@@ -59,15 +60,21 @@ def roundtrip(rm, desc):
         for a, b in zip(r1, r2))
     key = ('C12:noquant-config-dropped' if same_shape and
            'C12:noquant-config-dropped' in guards else 'C12:reload-differs')
-    return {'key': key, 'what': 'reloaded recipe differs from the saved one',
-            'input': desc, 'recipe': r1, 'reloaded': r2}
+    found = {'key': key, 'what': 'reloaded recipe differs from the saved one',
+             'input': desc, 'recipe': r1, 'reloaded': r2}
+    if key != 'C12:noquant-config-dropped':
+      return found
+  # resolution is compared even when only a no_quantize rule's (unused)
+  # config was dropped: that known difference must not hide a different one
   for op, sc in PAIRS:
     a1, c1 = rm.get_quantization_configs(op, sc)
     a2, c2 = new.get_quantization_configs(op, sc)
-    if (getattr(a1, 'value', a1), c1) != (getattr(a2, 'value', a2), c2):
+    a1v, a2v = getattr(a1, 'value', a1), getattr(a2, 'value', a2)
+    if a1v != a2v or (a1v != 'no_quantize' and c1 != c2):
       return {'key': 'C12:resolution-differs', 'what':
-              f'({op},{sc}) resolves differently after reload', 'input': desc}
-  return None
+              f'({op},{sc!r}) resolves to {a1v} before and {a2v} after the JSON round trip',
+              'input': desc, 'recipe': r1}
+  return found
 
 
 def main():
